@@ -88,3 +88,11 @@ def evaluate(model, addr):
 def cast_native(v):
     """What Evaluator.evaluate does with a constant cell value."""
     return T.ExcelType.cast_from_native(v)
+
+
+def concretize(x, lo, hi):
+    """Fork on every value of a small symbolic integer (explored by path forking)."""
+    for k in range(lo, hi + 1):
+        if x == k:
+            return k
+    raise AssertionError('value outside the stated range')
